@@ -39,6 +39,17 @@ func (v *Verifier[X, W, A, S, Z]) Verify(statement X, proofBytes compiler.NIZKPo
 	if len(rfProof.A) != R || len(rfProof.E) != R || len(rfProof.Z) != R {
 		return proofs.ErrInvalidArgument.WithMessage("invalid length")
 	}
+	// The prover always emits challenges of exactly the sigma protocol's challenge length.
+	// Sigma verifiers that read the challenge as a big-endian integer (Maurer-style
+	// protocols) give the same verdict for 0^k || e_i, so without this check a second
+	// accepted proof can be ground out of an honest one (the hash target is hit again with
+	// probability 2^-L per attempt).
+	challengeLen := v.sigmaProtocol.GetChallengeBytesLength()
+	for i := range R {
+		if len(rfProof.E[i]) != challengeLen {
+			return proofs.ErrInvalidArgument.WithMessage("invalid challenge length")
+		}
+	}
 
 	sessionID := v.ctx.SessionID()
 	v.ctx.Transcript().AppendDomainSeparator(fmt.Sprintf("%s-%s", transcriptLabel, hex.EncodeToString(sessionID[:])))
